@@ -1,7 +1,5 @@
 """C11 -- viscoelastic models dissipate, relax and keep viscous flow isochoric
 (optimism/material/HyperViscoelastic.py, MultiBranchHyperViscoelastic.py, TensorMath.py)."""
-import contextlib
-import io
 import json
 import math
 
@@ -84,23 +82,6 @@ def rand_props(r, nb):
     return out
 
 
-def make_model(props, nb):
-    from optimism.material import HyperViscoelastic, MultiBranchHyperViscoelastic
-    if nb == 1:
-        d = {'equilibrium bulk modulus': props[0], 'equilibrium shear modulus': props[1],
-             'non equilibrium shear modulus': props[2], 'relaxation time': props[3]}
-        mod = HyperViscoelastic
-    else:
-        d = {'equilibrium bulk modulus': props[0], 'equilibrium shear modulus': props[1]}
-        for n in range(3):
-            d['non equilibrium shear modulus %d' % (n + 1)] = props[2 + 2 * n]
-            d['relaxation time %d' % (n + 1)] = props[3 + 2 * n]
-        mod = MultiBranchHyperViscoelastic
-    with contextlib.redirect_stdout(io.StringIO()):
-        mat = mod.create_material_model_functions(d)
-    return mod, mat
-
-
 def hencky_dev_norm2(F):
     """|dev log U|^2 from an independent eigen-decomposition"""
     import numpy as np
@@ -110,12 +91,44 @@ def hencky_dev_norm2(F):
     return float((e * e).sum())
 
 
+
+_JIT = {}
+
+
+def step_fn(nb):
+    """one jitted function per model: everything the checks need from one step, properties passed as an argument"""
+    if nb in _JIT:
+        return _JIT[nb]
+    import jax
+    import jax.numpy as jnp
+    from jax.scipy import linalg as jlinalg
+    from optimism.material import HyperViscoelastic as HV, MultiBranchHyperViscoelastic as MB
+    mod = HV if nb == 1 else MB
+
+    def f(H, state, dt, p):
+        D = mod._compute_dissipated_energy(H, state, dt, p)
+        W = mod._energy_density(H, state, dt, p)
+        Weq = mod._eq_strain_energy(H, p)
+        new = mod._compute_state_new(H, state, dt, p)
+        br = []
+        for n in range(nb):
+            Fv = state[9 * n:9 * n + 9]
+            Ee = mod._compute_elastic_logarithmic_strain(H, Fv)
+            if nb == 1:
+                dE = mod._compute_state_increment(Ee, dt, p)
+                Wn = mod._neq_strain_energy(Ee - dE, p)
+            else:
+                dE = mod._compute_state_increment(Ee, dt, p, 2 + 2 * n)
+                Wn = mod._neq_strain_energy(Ee - dE, p, 2 + 2 * n)
+            br.append((Ee, dE, Wn, jlinalg.expm(dE)))
+        return D, W, Weq, new, br
+    _JIT[nb] = jax.jit(f)
+    return _JIT[nb]
+
 # ----------------------------------------------------------------------------- L1: generated kernels at binary64
 def l1(ctx, model_ok):
     import numpy as np
     import jax.numpy as jnp
-    from jax.scipy import linalg as jlinalg
-    from optimism.material import HyperViscoelastic as HV, MultiBranchHyperViscoelastic as MB
     r = ctx.rng('l1')
     exprs, want, info = [], [], []
     for k in range(ctx.n(40, 400)):
@@ -127,14 +140,10 @@ def l1(ctx, model_ok):
         # ---- single branch
         p = rand_props(r, 1)
         dt = dt_over_tau * p[3]
-        pj = jnp.array(p)
-        st = jnp.array(Fv.ravel())
-        Ee = np.asarray(HV._compute_elastic_logarithmic_strain(jnp.array(H), st))
-        dEv = np.asarray(HV._compute_state_increment(jnp.array(Ee), dt, pj))
-        EX = np.asarray(jlinalg.expm(jnp.array(dEv)))
-        D = float(HV._compute_dissipated_energy(jnp.array(H), st, dt, pj))
-        W = float(HV._energy_density(jnp.array(H), st, dt, pj))
-        Fn = np.asarray(HV._compute_state_new(jnp.array(H), st, dt, pj)).reshape(3, 3)
+        D, W, _, new, br = step_fn(1)(jnp.array(H), jnp.array(Fv.ravel()), dt, jnp.array(p))
+        D, W = float(D), float(W)
+        Ee, dEv, EX = (np.asarray(x) for x in (br[0][0], br[0][1], br[0][3]))
+        Fn = np.asarray(new).reshape(3, 3)
         e1 = ('[D_hv %s %s %s %s %s; E_hv %s %s %s %s %s] ++ %s (inc_hv %s %s %s) ++ %s (state_new_hv %s %s %s %s %s %s)'
               % (fn_const(Ee), ctup(p), cm(Fv), C.cf(dt), cm(H), fn_const(Ee), ctup(p), cm(Fv), C.cf(dt), cm(H),
                  MAT9, ctup(p), C.cf(dt), cm(Ee), MAT9, fn_const(Ee), fn_const(EX), ctup(p), cm(Fv), C.cf(dt), cm(H)))
@@ -144,17 +153,14 @@ def l1(ctx, model_ok):
         # ---- three branches, each with its own viscous distortion
         p3 = rand_props(r, 3)
         dt3 = dt_over_tau * p3[3 + 2 * r.randrange(3)]
-        pj3 = jnp.array(p3)
         Fvs = [Fv, np.eye(3), rand_F(r, 0.2)]
         Fvs[2] = Fvs[2] / np.cbrt(np.linalg.det(Fvs[2]))
-        st3 = jnp.array(np.hstack([f.ravel() for f in Fvs]))
-        D3 = float(MB._compute_dissipated_energy(jnp.array(H), st3, dt3, pj3))
-        Fn3 = np.asarray(MB._compute_state_new(jnp.array(H), st3, dt3, pj3)).reshape(3, 3, 3)
+        D3, _, _, new3, br3 = step_fn(3)(jnp.array(H), jnp.array(np.hstack([f.ravel() for f in Fvs])), dt3, jnp.array(p3))
+        D3 = float(D3)
+        Fn3 = np.asarray(new3).reshape(3, 3, 3)
         parts, mats = [], []
         for n in range(3):
-            Een = np.asarray(MB._compute_elastic_logarithmic_strain(jnp.array(H), jnp.array(Fvs[n].ravel())))
-            dEn = np.asarray(MB._compute_state_increment(jnp.array(Een), dt3, pj3, 2 + 2 * n))
-            EXn = np.asarray(jlinalg.expm(jnp.array(dEn)))
+            Een, EXn = np.asarray(br3[n][0]), np.asarray(br3[n][3])
             parts.append('(D_mb_branch %d%%nat %s %s %s %s %s)' % (n, fn_const(Een), ctup(p3), cm(Fvs[n]), C.cf(dt3), cm(H)))
             mats.append('%s (state_new_b %d%%nat %s %s %s %s %s %s)' % (MAT9, n, fn_const(Een), fn_const(EXn), ctup(p3), cm(Fvs[n]), C.cf(dt3), cm(H)))
         e3 = '[nadd (nadd (nadd nzero %s) %s) %s] ++ %s' % (parts[0], parts[1], parts[2], ' ++ '.join(mats))
@@ -180,51 +186,31 @@ def l1(ctx, model_ok):
 
 
 # ----------------------------------------------------------------------------- L2: conclusions on the real models
-def branch_views(mod, nb, props):
-    """per branch: (G, tau, functions for trial strain, increment, neq energy)"""
-    import jax.numpy as jnp
-    pj = jnp.array(props)
-    out = []
-    for n in range(nb):
-        if nb == 1:
-            inc = lambda E, dt: mod._compute_state_increment(E, dt, pj)
-            neq = lambda E: mod._neq_strain_energy(E, pj)
-        else:
-            inc = (lambda pid: (lambda E, dt: mod._compute_state_increment(E, dt, pj, pid)))(2 + 2 * n)
-            neq = (lambda pid: (lambda E: mod._neq_strain_energy(E, pj, pid)))(2 + 2 * n)
-        out.append((props[2 + 2 * n], props[3 + 2 * n], inc, neq))
-    return out
-
-
 def run_history(ctx, nb, props, steps, label):
     """steps: list of (F, dt, held) ; evaluates dissipation >= 0, |det Fv - 1|, Hexp, and on held steps Hcoax + monotone decay with the exact factor"""
     import numpy as np
     import jax.numpy as jnp
-    from jax.scipy import linalg as jlinalg
-    mod, mat = make_model(props, nb)
-    views = branch_views(mod, nb, props)
-    state = mat.compute_initial_state()
+    fn = step_fn(nb)
+    pj = jnp.array(props)
+    state = jnp.array(np.hstack([np.eye(3).ravel()] * nb))
     prev = None          # per branch: (reported W_neq, trial strain, increment) of the previous step
     case = dict(part='history', model=label, props=props, steps=[(np.asarray(F).tolist(), dt, held) for F, dt, held in steps])
     for k, (F, dt, held) in enumerate(steps):
         H = jnp.array(F - np.eye(3))
         ctx.count('evaluations')
-        D = float(mat.compute_material_qoi(H, state, dt))
+        D, _, _, new_state, br = fn(H, state, dt, pj)
+        D = float(D)
         if not (D >= 0.0):
             ctx.fail('conclusion', '%s: dissipated energy %r < 0 at step %d (dt=%r)' % (label, D, k, dt), case=dict(case, step=k, clause='dissipation'), concrete=True)
-        new_state = mat.compute_state_new(H, state, dt)
         cur = []
-        for n, (G, tau, inc, neq) in enumerate(views):
-            Fv = state[9 * n:9 * n + 9]
-            Ee = mod._compute_elastic_logarithmic_strain(H, Fv)
-            dE = inc(Ee, dt)
-            W = float(neq(Ee - dE))
-            # Hexp on the implementation's expm
-            ex = np.asarray(jlinalg.expm(dE))
-            if abs(np.linalg.det(ex) - math.exp(float(np.trace(np.asarray(dE))))) > 1e-10:
+        for n in range(nb):
+            G, tau = props[2 + 2 * n], props[3 + 2 * n]
+            Ee, dE, W, ex = (np.asarray(x) for x in br[n])
+            W = float(W)
+            if abs(np.linalg.det(ex) - math.exp(float(np.trace(dE)))) > 1e-10:
                 ctx.fail('conclusion', '%s: det(expm(delta_Ev)) = %r differs from exp(tr) (hypothesis Hexp)' % (label, float(np.linalg.det(ex))),
                          case=dict(case, step=k, clause='Hexp'), concrete=True)
-            if abs(float(np.trace(np.asarray(dE)))) > 1e-12 * max(1.0, float(np.abs(np.asarray(dE)).max())):
+            if abs(float(np.trace(dE))) > 1e-12 * max(1.0, float(np.abs(dE).max())):
                 ctx.fail('conclusion', '%s: state increment of branch %d is not trace-free' % (label, n), case=dict(case, step=k, clause='deviatoric'), concrete=True)
             Fvn = np.asarray(new_state[9 * n:9 * n + 9]).reshape(3, 3)
             if abs(np.linalg.det(Fvn) - 1.0) > 1e-9:
@@ -232,9 +218,8 @@ def run_history(ctx, nb, props, steps, label):
                          case=dict(case, step=k, clause='isochoric'), concrete=True)
             if held and prev is not None:
                 Wp, Ep, dEp = prev[n]
-                # Hcoax: the trial strain now is the relaxed strain of the previous step
-                gap = float(np.abs(np.asarray(Ee) - (np.asarray(Ep) - np.asarray(dEp))).max())
-                sc = max(1.0, float(np.abs(np.asarray(Ep)).max()))
+                gap = float(np.abs(Ee - (Ep - dEp)).max())
+                sc = max(1.0, float(np.abs(Ep).max()))
                 if gap > 2e-8 * sc:
                     ctx.fail('conclusion', '%s: held step %d, branch %d: trial strain differs from the relaxed strain by %.3g (hypothesis Hcoax)' % (label, k, n, gap),
                              case=dict(case, step=k, clause='Hcoax'), concrete=True)
@@ -255,21 +240,21 @@ def run_history(ctx, nb, props, steps, label):
 def limits(ctx, nb, props, F, label):
     import numpy as np
     import jax.numpy as jnp
-    mod, mat = make_model(props, nb)
+    fn = step_fn(nb)
     H = jnp.array(F - np.eye(3))
-    state = mat.compute_initial_state()
+    state = jnp.array(np.hstack([np.eye(3).ravel()] * nb))
     pj = jnp.array(props)
-    Weq = float(mod._eq_strain_energy(H, pj))
     n2 = hencky_dev_norm2(F)
     Gs = [props[2 + 2 * n] for n in range(nb)]
     taus = [props[3 + 2 * n] for n in range(nb)]
-    Winst = Weq + sum(Gs) * n2
     case = dict(part='limits', model=label, props=props, F=np.asarray(F).tolist())
     tmin, tmax = min(taus), max(taus)
     for e in range(-6, 7):
         for dt in (10.0 ** e * tmin, 10.0 ** e * tmax):
             ctx.count('evaluations')
-            W = float(mat.compute_energy_density(H, state, dt))
+            _, W, Weq, _, _ = fn(H, state, dt, pj)
+            W, Weq = float(W), float(Weq)
+            Winst = Weq + sum(Gs) * n2
             b0 = sum(G * n2 * dt / t for G, t in zip(Gs, taus))
             b1 = sum(G * n2 * t / dt for G, t in zip(Gs, taus))
             tol = 1e-8 * (abs(Weq) + sum(Gs) * n2) + 1e-12 * max(props)
